@@ -276,15 +276,8 @@ def parseOutputFormat (ts : List Lexem) : Except PErr OutputFormat × Rest ts :=
     | r0 => (.error (.msg "Error parsing output format"), ⟨r0, by simp⟩)
   | ts => (.ok .Tabs, Rest.refl ts)
 
-/-- tokens as the parser sees them: empty quoted strings are discarded (parser.rs:43-48) -/
-def dropEmptyStrings (ts : List Lexem) : List Lexem :=
-  ts.filter fun t => match t with
-    | .str s => !s.isEmpty
-    | _ => true
-
 /-- `Parser::parse` on a token list. -/
-def parseTokens (ts0 : List Lexem) : Except PErr Query :=
-  let ts := dropEmptyStrings ts0
+def parseTokens (ts : List Lexem) : Except PErr Query :=
   match parseFields ts with
   | (.error e, _) => .error e
   | (.ok fields, ⟨t1, _⟩) =>
